@@ -62,6 +62,8 @@ type Gen struct {
 	stepVals        map[string][2]T
 	errSt           State
 	volatile        map[string]bool
+	lockSt          State
+	interfered      map[string]bool // guarded fields havocked at lock acquisition (interference, not our writes)
 	frameStructural map[string]bool
 	errQuantDone    bool
 	notes           map[string]bool
@@ -120,6 +122,8 @@ func (g *Gen) reset() {
 	g.modelVars = nil
 	g.stepVals = nil
 	g.volatile = nil
+	g.lockSt = nil
+	g.interfered = map[string]bool{}
 	g.frameStructural = map[string]bool{}
 }
 
@@ -388,7 +392,7 @@ func (g *Gen) query(o *Obligation) string {
 	var sb strings.Builder
 	sb.WriteString(prelude)
 	sb.WriteString(g.te.decls())
-	sb.WriteString(g.lib.Text)
+	sb.WriteString(g.lib.TextFor(g.reveals()))
 	for _, l := range g.lines[:o.Prefix] {
 		sb.WriteString(l)
 		sb.WriteString("\n")
@@ -435,4 +439,14 @@ func (lib *SpecLib) accessorSort(name string) (string, bool) {
 	}
 	s, ok := lib.acc[name]
 	return s, ok
+}
+
+func (g *Gen) reveals() map[string]bool {
+	m := map[string]bool{}
+	if g.ct != nil {
+		for _, r := range g.ct.Reveal {
+			m[r] = true
+		}
+	}
+	return m
 }
